@@ -341,7 +341,16 @@ def stepLine (m : M) (line : String) : M × String :=
           let (s', r) := s.step op
           let head := if op == .ev then s!"t={s'.now}" else showResC r
           if s'.gaveUp then (.cbelt s', "GAVEUP") else
-          (.cbelt s', s!"{head} | {showFired s'.fired} | {showNats s'.newReady}" ++ (if s'.flagged then " FLAGGED" else ""))
+          -- travel bookkeeping of the library, as the anchors name it: for every item that reached the exit its entry time
+          -- and total interruption time; for an accepted put the belt travel of the item that entered before it
+          let acct := s'.newReady.map (fun id =>
+            match s'.ready.find? (fun it => it.item.id == id) with
+            | some it => s!"a{id}:{it.entry}:{it.totalInt}"
+            | none => s!"a{id}:?:?")
+          let prev := match op, r with
+            | .put _ _ _, .ok => (match s.items.getLast? with | some l => [s!"p{s.tob l}"] | none => ["p-"])
+            | _, _ => []
+          (.cbelt s', s!"{head} | {showFired s'.fired} | {showNats s'.newReady} | {" ".intercalate (acct ++ prev)}" ++ (if s'.flagged then " FLAGGED" else ""))
         | none => (m, "bad-op")
     | .fleet s =>
       match w with
